@@ -2,7 +2,7 @@
 import exportchecks
 
 PROP = "C06"
-SLICES = "hist spell stale prev imports samefile underscore".split()
+SLICES = "hist spell stale prev imports samefile underscore casepaths".split()
 
 
 def stages(tier, v, stats, seed):
